@@ -49,7 +49,9 @@ def gen_spec(rng):
     for c in codes:
         nsol = 1 if rng.random() < 0.75 else rng.choice([2, 3])
         lon = [rng.randrange(0, 360), rng.randrange(0, 60), round(rng.uniform(0, 59.9), 1)]
-        lat = [rng.choice([-1, 1]) * rng.randrange(1, 90), rng.randrange(0, 60), round(rng.uniform(0, 59.9), 1)]
+        # latitude as [sign, deg, min, sec]: the sign lives in the degrees field even when deg == 0 ('-0 30 12.0')
+        lat = [rng.choice([-1, 1]), rng.choice([0, 0, rng.randrange(0, 90)]) if rng.random() < 0.3 else rng.randrange(0, 90),
+               rng.randrange(0, 60), round(rng.uniform(0, 59.9), 1)]
         h = round(rng.uniform(-90, 4000), 1)
         if rng.random() < 0.2:
             h = rng.choice([603.2, 1234.5, -12.3, 9.9, 0.4, 99999.9][:5])
@@ -198,9 +200,10 @@ def write_sinex(spec, sol=None):
             continue
         seen.add((s['code'], s['pt']))
         lat = s['lat']
-        L.append(' %4s %2s %9s %1s %-22s %3d %2d %4.1f %3d %2d %4.1f %7.1f' % (
+        latdeg = ('-%d' % lat[1]) if lat[0] < 0 else ('%d' % lat[1])
+        L.append(' %4s %2s %9s %1s %-22s %3d %2d %4.1f %3s %2d %4.1f %7.1f' % (
             s['code'], s['pt'], s['domes'], s['tech'], s['desc'][:22], s['lon'][0], s['lon'][1], s['lon'][2],
-            lat[0], lat[1], lat[2], s['h']))
+            latdeg, lat[2], lat[3], s['h']))
     L += ['-SITE/ID', SEP, '+SOLUTION/EPOCHS', EPOCH_COMMENT]
     for s in sol.stations:
         L.append(' %4s %2s %4s %1s %s %s %s' % (s['code'], s['pt'], s['soln'], s['tech'], s['start'], s['end'], s['epoch']))
